@@ -84,6 +84,8 @@ mod memory_estimator;
 mod thread_local_cache;
 
 pub mod invalidation;
+#[cfg(feature = "verif-hooks")]
+pub mod verif_hooks;
 pub mod utils;
 
 #[cfg(feature = "stats")]
